@@ -9,6 +9,16 @@ from sa.pm import Program
 
 p = Program()
 args = sys.argv[1:]
+if args and args[0] == "--modules":
+    # every function (methods and nested functions included) of the given modules, named q__<dotted with __>
+    new = []
+    for rel in args[1:]:
+        m = p.module(rel)
+        for q, f in sorted(p.functions.items(), key=lambda kv: kv[1].node.lineno if kv[1].module is m else 0):
+            if f.module is m and not isinstance(f.node, ast.Lambda):
+                dotted = q[len(m.name) + 1:]
+                new += [rel, dotted, "q__" + dotted.replace(".", "__")]
+    args = new
 while args:
     rel, dotted = args[0], args[1]
     name = dotted.replace(".", "_")
